@@ -360,9 +360,30 @@ def t_movable_fwd(g):
             g.feat.add("stall")
         for p in pins:
             pool.append(g.reg(p, r.choice(["regfwd", "regfwd", "regfb"]), rst=resets))
+    nsrc = len(pool)
+    in_area = mode != "api" and r.random() < 0.3
+    if in_area:
+        g.emit(f"area cone{g.fresh('a')}" + (" entity" if r.random() < 0.4 else ""))
+        g.feat.add("cone-in-area")
     for i in range(r.randrange(1, 4)):
         pool.append(g.combine(pool))
     x = pool[-1]
+    # decorations inside the cone that is going to be retimed: named intermediates and an intermediate that
+    # ALSO leaves the cone (second output pin): every value leaving the cone needs its own register
+    extra_out = None
+    if mode != "api" and len(pool) - nsrc >= 2 and r.random() < 0.55:
+        mid = r.choice(pool[nsrc:-1])
+        if r.random() < 0.7:
+            g.emit(f"name {mid} n_{mid}")
+            g.feat.add("named-signal-in-cone")
+        extra_out = mid
+        g.feat.add("cone-intermediate-leaves-cone")
+    elif r.random() < 0.3 and len(pool) > nsrc:
+        mid = r.choice(pool[nsrc:])
+        g.emit(f"name {mid} n_{mid}")
+        g.feat.add("named-signal-in-cone")
+    if in_area:
+        g.emit("endarea")
     if mode == "api":
         y = g.unop(x)           # give the target a consumer
         g.emit(f"retfwd {x}")
@@ -376,6 +397,8 @@ def t_movable_fwd(g):
     if en is not None:
         g.emit("endenif")
     g.out(x)
+    if extra_out is not None:
+        g.out(extra_out)
     g.feat.add("movable-forward")
     g.feat.add("resets" if resets else "no-resets")
     return dict(template="movable_fwd:" + mode, expect=expect, warm=False, claim="every-cycle")
